@@ -10,6 +10,7 @@ package dastard
 
 import (
 	"encoding/binary"
+	"encoding/hex"
 	"fmt"
 	"math"
 	"math/big"
@@ -458,7 +459,7 @@ func v13Analyze(x *vexp.X, q *v13Run) vexp.Result {
 		}
 	}
 	viol, out, st := v13CheckRecord(x, q, rec, loaded)
-	res := vexp.Result{Nontrivial: !st.constant, Outcome: string(out)}
+	res := vexp.Result{Nontrivial: !st.constant, Outcome: hex.EncodeToString(out)}
 	if viol != nil {
 		res.Violation, res.Class = viol.what, viol.class
 	}
@@ -490,7 +491,7 @@ func v13ShapeBody(x *vexp.X, sh v13Shape, signed bool) vexp.Result {
 			return vexp.Result{Violation: "compatible model rejected: " + err.Error(), Class: "c13-compatible-rejected"}
 		}
 	}
-	pr := x.Choose(4)             // 0 = empty matrix
+	pr := x.Choose(4) // 0 = empty matrix
 	pc := sh.nsamp - 1 + x.Choose(3)
 	br := sh.nsamp - 1 + x.Choose(3)
 	bc := x.Choose(4) // 0 = empty matrix
@@ -536,7 +537,7 @@ func v13ShapeBody(x *vexp.X, sh v13Shape, signed bool) vexp.Result {
 	x.Steps++
 	dsp.AnalyzeData([]*DataRecord{rec})
 	viol, out, _ := v13CheckRecord(x, q, rec, cur.nb() > 0)
-	res := vexp.Result{Nontrivial: true, Outcome: fmt.Sprintf("err=%v|", err != nil) + string(out)}
+	res := vexp.Result{Nontrivial: true, Outcome: fmt.Sprintf("err=%v|", err != nil) + hex.EncodeToString(out)}
 	if viol != nil {
 		res.Violation, res.Class = desc+": "+viol.what, viol.class
 	}
@@ -580,7 +581,7 @@ func v13OffBody(x *vexp.X, q *v13Run, path string) vexp.Result {
 	for _, v := range append([]float32{r.ptMean, r.ptDelta, r.resid}, r.coefs...) {
 		out = binary.LittleEndian.AppendUint32(out, math.Float32bits(v))
 	}
-	res := vexp.Result{Nontrivial: !st.constant, Outcome: "off|" + string(out)}
+	res := vexp.Result{Nontrivial: !st.constant, Outcome: "off|" + hex.EncodeToString(out)}
 	bad := func(class, f string, a ...interface{}) vexp.Result {
 		res.Violation, res.Class = fmt.Sprintf("%v: OFF file: ", q)+fmt.Sprintf(f, a...), class
 		return res
